@@ -173,8 +173,10 @@ class n0xml:
                 if current_xpath_part == '..':
                     return None
 
-                match = re.match(
-                    r"([a-zA-Z0-9_]+|\*\*|\*)(?:\[(\d+|\*)\])?(?:\[(text)(\(\))?(==|!=|<>|=)['\"]?([^'\"]+)['\"]?\])?",
+                # the whole step must be read: a tag is an XML name (letters, digits, '_', then also '-' and '.'), not only its
+                # alphanumeric prefix, and nothing may be left over after the index / the condition
+                match = re.fullmatch(
+                    r"(\w[\w.\-]*|\*\*|\*)(?:\[(\d+|\*)\])?(?:\[(text)(\(\))?(==|!=|<>|=)['\"]?([^'\"]+)['\"]?\])?",
                     current_xpath_part
                 )
                 if not match:
